@@ -322,10 +322,48 @@ func (w *World) completionPredicate() *ssa.Function {
 // distributor = the go target that receives from and sends on WC.wsync column entries.
 func (w *World) distributor() *ssa.Function {
 	fs := w.goTargetsWhere(func(f *ssa.Function) bool {
-		return w.fnRecvsFrom(f, "WC.wsync") && w.fnSendsOn(f, "WC.wsync")
+		// in the function itself or in the private helpers it calls (collect / distribute split)
+		recvs, sends := false, false
+		for _, g := range w.staticHelpers(f, 2) {
+			recvs = recvs || w.fnRecvsFrom(g, "WC.wsync")
+			sends = sends || w.fnSendsOn(g, "WC.wsync")
+		}
+		return recvs && sends
 	})
 	if len(fs) == 1 {
 		return fs[0]
 	}
 	return nil
+}
+
+
+// staticHelpers: f and the same-package, non-exported functions without a go statement that it
+// reaches by static calls (depth <= d). Unlike unit() this does not consult the anchors (it is
+// used to find them).
+func (w *World) staticHelpers(f *ssa.Function, d int) []*ssa.Function {
+	seen := map[*ssa.Function]bool{f: true}
+	out := []*ssa.Function{f}
+	var rec func(g *ssa.Function, depth int)
+	rec = func(g *ssa.Function, depth int) {
+		if depth >= d {
+			return
+		}
+		for _, b := range g.Blocks {
+			for _, in := range b.Instrs {
+				c, ok := in.(*ssa.Call)
+				if !ok {
+					continue
+				}
+				h := c.Call.StaticCallee()
+				if h == nil || h.Blocks == nil || seen[h] || h.Pkg != f.Pkg || h.Parent() != nil || token.IsExported(h.Name()) || h.Signature.Recv() != nil {
+					continue
+				}
+				seen[h] = true
+				out = append(out, h)
+				rec(h, depth+1)
+			}
+		}
+	}
+	rec(f, 0)
+	return out
 }
